@@ -5,13 +5,15 @@ import WebrtcVerif.Model.Close
   op:   run <point> <closers> u=<ice,…|-> sched <name>…
         point    p0 fresh (one local track) · p1 after SetLocalDescription(offer) · p1r answerer after
                  SetRemoteDescription(offer): transports started, ICE checking · p2 both descriptions set, ICE checking · p3 connected, data
-                 channel open and sending
+                 channel open and sending · p4 as p3, and the data channel's OnMessage handler is parked inside
+                 the application's code (its read loop goroutine is busy) until thread H0 releases it
         closers  word over {C,G}: harness thread T<i> calls Close (C) or GracefulClose (G)
         u=       harness thread U<j> delivers ICE connection state <ice> (raw value) the way the ICE
                  agent's notifier does (onICEConnectionStateChange; updateConnectionState)
         sched    thread names released one segment (= up to the next verifYield) at a time; afterwards all
-                 threads are drained round-robin
-  out:  <name:result>… / <drain name:result>… | <name:fin>… | ret r<i>=<sig>[/<conn>]… | sig <s> conn <c>
+                 threads are drained round-robin (H0 only when nothing else can run)
+        H0 (p4 only) lets the parked handler return
+  out:  <name:result>… / <drain name:result>… | <name:fin>… | ret r<i>=<sig>[/<conn>/<busy>]… | sig <s> conn <c>
         | h <n> <state>… | api <name>=<class>… | after <s> <c> | ops <0|1> | gor <n|->
 
   The simulator maps every released segment to core `Close.step` actions and never changes the core state
@@ -33,13 +35,13 @@ def parseUps (s : String) : Option (List Nat) :=
 
 def validName (n : String) : Bool :=
   match n.toList with
-  | [k, d] => (k == 'T' || k == 'U') && d.isDigit
+  | [k, d] => (k == 'T' || k == 'U' || k == 'H') && d.isDigit
   | _ => false
 
 def parseProg (args : List String) : Option Prog :=
   match args with
   | "run" :: point :: closers :: u :: "sched" :: sched =>
-    if !(["p0", "p1", "p1r", "p2", "p3"].contains point) then none else
+    if !(["p0", "p1", "p1r", "p2", "p3", "p4"].contains point) then none else
     let cs := closers.toList
     if cs.length < 1 || cs.length > 4 || !cs.all (fun c => c == 'C' || c == 'G') then none else
     if !u.startsWith "u=" then none else
@@ -52,15 +54,18 @@ def parseProg (args : List String) : Option Prog :=
   | _ => none
 
 def pointConn (p : String) : Pc :=
-  if p == "p2" || p == "p1r" then .connecting else if p == "p3" then .connected else .new
-def pointDtls (p : String) : Dtls := if p == "p3" then .connected else .new
-def pointHasRemote (p : String) : Bool := p == "p1r" || p == "p2" || p == "p3"
+  if p == "p2" || p == "p1r" then .connecting else if p == "p3" || p == "p4" then .connected else .new
+def pointDtls (p : String) : Dtls := if p == "p3" || p == "p4" then .connected else .new
+def pointHasRemote (p : String) : Bool := p == "p1r" || p == "p2" || p == "p3" || p == "p4"
+/-- the read loop goroutines of the data channels open at the point -/
+def pointLoops (p : String) : List LPc := if p == "p3" then [.reading] else if p == "p4" then [.handler] else []
 
 structure Sim where
   core : St
   prog : Prog
   ufin : List Bool            -- per U thread: finished
   rets : List String          -- per T thread: what it observed when its call returned
+  hfin : Bool := false        -- H0 has run
 
 def act (sim : Sim) (a : Action) : Sim :=
   match step sim.core a with
@@ -75,11 +80,20 @@ def roleOf (sim : Sim) (i : Nat) : Role := (sim.core.closers[i]?.map (·.role)).
 /-- the thread's call returned: record what it sees -/
 def finishT (sim : Sim) (i : Nat) : String × Sim :=
   let g := (sim.prog.gs[i]?).getD false
-  let o := s!"r{i}={Wire.boolTok sim.core.sigClosed}" ++ (if g then s!"/{sim.core.conn.toNat}" else "")
+  let busy := sim.core.loops.any (· == .handler)
+  let o := s!"r{i}={Wire.boolTok sim.core.sigClosed}" ++
+    (if g then s!"/{sim.core.conn.toNat}/{Wire.boolTok busy}" else "")
   ("fin", { sim with rets := sim.rets.set i o })
+
+def hasLoop (sim : Sim) : Bool := !sim.core.loops.isEmpty
+def loopBusy (sim : Sim) : Bool := sim.core.loops.any (· == .handler)
+/-- the association is stopped: the read loops that are back in ReadDataChannel end -/
+def endLoops (sim : Sim) : Sim :=
+  acts sim ((List.range sim.core.loops.length).map (fun l => Action.lExit l))
 
 /-- one segment of closer thread `i` -/
 def stepT (sim : Sim) (i : Nat) : String × Sim :=
+  let g := (sim.prog.gs[i]?).getD false
   match pcOf sim i with
   | none => ("skip", sim)
   | some .returned => ("skip", sim)
@@ -96,12 +110,25 @@ def stepT (sim : Sim) (i : Nat) : String × Sim :=
   | some .gWoke => finishT (act sim (.cstep i)) i
   | some .cWait =>
       if sim.core.closeDone then ("close.cwoke", act sim (.cstep i)) else ("blocked", sim)
-  | some .cWoke => finishT (acts sim (List.replicate 3 (.cstep i))) i      -- tail, graceful ops, close(gracefulDone)
+  | some .cWoke =>
+      if hasLoop sim then ("dc.close.wait", acts sim (List.replicate 2 (.cstep i)))  -- ICE graceful stop, ops close; at `<-readLoopActive`
+      else finishT (acts sim (List.replicate 4 (.cstep i))) i      -- tail, joins (none), close(gracefulDone)
+  | some .tJoin =>
+      if loopBusy sim then ("blocked", sim) else ("dc.close.woke", act (endLoops sim) (.cstep i))
+  | some .dG => finishT (act sim (.cstep i)) i                     -- (tailer) close(gracefulDone)
   | some .bMedia => ("ucs.computed", acts sim (List.replicate 6 (.cstep i)))  -- … up to the snapshot in updateConnectionState
   | some (.ucs _) => ("close.ucs", act sim (.cstep i))
   | some .bGraceful =>
-      -- graceful ops, interceptor close, then the deferred close(isGracefulCloseDone) if registered
-      let sim := acts sim (List.replicate 2 (.cstep i))
+      if g && hasLoop sim then ("dc.close.wait", act sim (.cstep i))   -- graceful ops up to `<-readLoopActive`
+      else
+        -- graceful ops, joins (none), interceptor close, then the deferred close(isGracefulCloseDone) if registered
+        let sim := acts sim (List.replicate 3 (.cstep i))
+        let sim := if pcOf sim i == some .dG then act sim (.cstep i) else sim
+        ("close.d1", sim)
+  | some .bJoin =>
+      if loopBusy sim then ("blocked", sim) else ("dc.close.woke", act (endLoops sim) (.cstep i))
+  | some .bFinish =>
+      let sim := act sim (.cstep i)
       let sim := if pcOf sim i == some .dG then act sim (.cstep i) else sim
       ("close.d1", sim)
   | some .dC => finishT (act sim (.cstep i)) i
@@ -126,7 +153,13 @@ def parseName (n : String) : Option (Bool × Nat) :=
   | 'U' :: r => (String.ofList r).toNat?.map (fun k => (false, k))
   | _ => none
 
+/-- H0: the application's handler returns (p4 only) -/
+def stepH (sim : Sim) : String × Sim :=
+  if sim.prog.point != "p4" || sim.hfin then ("skip", sim)
+  else ("fin", { act sim (.lReturn 0) with hfin := true })
+
 def stepName (sim : Sim) (n : String) : String × Sim :=
+  if n == "H0" then stepH sim else
   match parseName n with
   | some (true, i) => stepT sim i
   | some (false, j) => stepU sim j
@@ -134,15 +167,17 @@ def stepName (sim : Sim) (n : String) : String × Sim :=
 
 def allNames (sim : Sim) : List String :=
   (List.range sim.prog.gs.length).map (fun i => s!"T{i}") ++ (List.range sim.prog.ups.length).map (fun j => s!"U{j}")
+    ++ (if sim.prog.point == "p4" then ["H0"] else [])
 
 def isFinished (sim : Sim) (n : String) : Bool :=
+  if n == "H0" then sim.prog.point != "p4" || sim.hfin else
   match parseName n with
   | some (true, i) => pcOf sim i == some .returned
   | some (false, j) => (sim.ufin[j]?).getD true
   | none => true
 
 def drainPass (sim : Sim) : Sim × List String × Bool :=
-  (allNames sim).foldl (fun (acc : Sim × List String × Bool) n =>
+  ((allNames sim).filter (· != "H0")).foldl (fun (acc : Sim × List String × Bool) n =>
     let (sim, ev, prog) := acc
     if isFinished sim n then acc
     else
@@ -154,7 +189,13 @@ def drain : Nat → Sim → List String → Sim × List String
   | fuel + 1, sim, ev =>
     if (allNames sim).all (isFinished sim) then (sim, ev) else
     let (sim1, ev1, prog1) := drainPass sim
-    if prog1 then drain fuel sim1 (ev ++ ev1) else (sim1, ev ++ ev1)
+    if prog1 then drain fuel sim1 (ev ++ ev1)
+    else if !isFinished sim1 "H0" then
+      -- the application's handler returns only when nothing else can run any more
+      let (r, sim2) := stepH sim1
+      let ev2 := ev ++ ev1 ++ [s!"H0:{r}"]
+      if r != "skip" then drain fuel sim2 ev2 else (sim2, ev2)
+    else (sim1, ev ++ ev1)
 
 def apiName : Api → String
   | .createOffer => "createOffer" | .createAnswer => "createAnswer" | .setLocalDescription => "setLocal"
@@ -170,7 +211,7 @@ def run (args : List String) : String :=
   match parseProg args with
   | none => "bad-op"
   | some p =>
-    let sim0 : Sim := { core := init p.gs p.ups.length (pointConn p.point), prog := p,
+    let sim0 : Sim := { core := init p.gs p.ups.length (pointConn p.point) (pointLoops p.point), prog := p,
                         ufin := p.ups.map (fun _ => false), rets := p.gs.map (fun _ => "") }
     let (sim1, ev1) := p.sched.foldl (fun (acc : Sim × List String) n =>
       let (r, s') := stepName acc.1 n
@@ -223,9 +264,13 @@ def judge (args out : List String) : String :=
       -- the state is then final: signaling closed, connection closed
       if sig != "1" then "violated signaling-not-closed" else
       if conn != "6" then "violated connection-state-not-closed" else
+      -- a GracefulClose must not return while a data-channel read loop goroutine is still busy
+      let busyBad := (List.range nT).any (fun i =>
+        (p.gs[i]?).getD false && (match ((rets[i]?).getD "").splitOn "/" with | [_, _, b] => b != "0" | _ => false))
+      if busyBad then "violated graceful-returned-while-readloop-busy" else
       -- a returned GracefulClose means everything is done
       let gBad := (List.range nT).any (fun i =>
-        (p.gs[i]?).getD false && (rets[i]?).getD "" != s!"r{i}=1/6")
+        (p.gs[i]?).getD false && (rets[i]?).getD "" != s!"r{i}=1/6/0")
       if gBad then "violated graceful-close-returned-before-closed" else
       -- every mutating API afterwards returns an InvalidStateError
       match apis.find? (fun a => match a.splitOn "=" with | [_, cls] => !cls.startsWith "IS" | _ => true) with
